@@ -72,8 +72,7 @@ theorem inv_call (s : State) (t : Tid) (op : Op) (h : Inv s) (hi : s.pc t = .idl
   obtain ⟨h1, h2, h3, h4, h5, h6, h7, h8, h9, h10, h11, h12, h13, h14⟩ := h
   chan_inv_case
 
-set_option maxHeartbeats 2000000 in
-theorem step_start (s : State) (t : Tid) (op : _) (h : Inv s) (hp : s.pc t = .start op) :
+theorem step_start_close (s : State) (t : Tid)  (h : Inv s) (hp : s.pc t = .start .close) :
     ∀ s', step s t = some s' → Inv s' := by
   have a_mutex1 := h.mutex1 t
   have a_mutex2 := h.mutex2 t
@@ -89,7 +88,107 @@ theorem step_start (s : State) (t : Tid) (op : _) (h : Inv s) (hp : s.pc t = .st
   have a_frF := h.frF t
   simp only [hp] at a_mutex1 a_mutex2 a_uniq a_past a_pre a_pd a_st a_gt a_wt a_clF a_cd a_frF
   obtain ⟨h1, h2, h3, h4, h5, h6, h7, h8, h9, h10, h11, h12, h13, h14⟩ := h
-  cases op <;> chan_step_tac
+  chan_step_tac
+
+theorem step_start_make (s : State) (t : Tid) (n : Nat) (h : Inv s) (hp : s.pc t = .start (.make n)) :
+    ∀ s', step s t = some s' → Inv s' := by
+  have a_mutex1 := h.mutex1 t
+  have a_mutex2 := h.mutex2 t
+  have a_uniq := h.uniq t
+  have a_past := h.past t
+  have a_pre := h.pre t
+  have a_pd := h.pd t
+  have a_st := h.st t
+  have a_gt := h.gt t
+  have a_wt := h.wt t
+  have a_clF := h.clF t
+  have a_cd := h.cd t
+  have a_frF := h.frF t
+  simp only [hp] at a_mutex1 a_mutex2 a_uniq a_past a_pre a_pd a_st a_gt a_wt a_clF a_cd a_frF
+  obtain ⟨h1, h2, h3, h4, h5, h6, h7, h8, h9, h10, h11, h12, h13, h14⟩ := h
+  chan_step_tac
+
+theorem step_start_get (s : State) (t : Tid)  (h : Inv s) (hp : s.pc t = .start .get) :
+    ∀ s', step s t = some s' → Inv s' := by
+  have a_mutex1 := h.mutex1 t
+  have a_mutex2 := h.mutex2 t
+  have a_uniq := h.uniq t
+  have a_past := h.past t
+  have a_pre := h.pre t
+  have a_pd := h.pd t
+  have a_st := h.st t
+  have a_gt := h.gt t
+  have a_wt := h.wt t
+  have a_clF := h.clF t
+  have a_cd := h.cd t
+  have a_frF := h.frF t
+  simp only [hp] at a_mutex1 a_mutex2 a_uniq a_past a_pre a_pd a_st a_gt a_wt a_clF a_cd a_frF
+  obtain ⟨h1, h2, h3, h4, h5, h6, h7, h8, h9, h10, h11, h12, h13, h14⟩ := h
+  chan_step_tac
+
+theorem step_start_send (s : State) (t : Tid)  (h : Inv s) (hp : s.pc t = .start .send) :
+    ∀ s', step s t = some s' → Inv s' := by
+  have a_mutex1 := h.mutex1 t
+  have a_mutex2 := h.mutex2 t
+  have a_uniq := h.uniq t
+  have a_past := h.past t
+  have a_pre := h.pre t
+  have a_pd := h.pd t
+  have a_st := h.st t
+  have a_gt := h.gt t
+  have a_wt := h.wt t
+  have a_clF := h.clF t
+  have a_cd := h.cd t
+  have a_frF := h.frF t
+  simp only [hp] at a_mutex1 a_mutex2 a_uniq a_past a_pre a_pd a_st a_gt a_wt a_clF a_cd a_frF
+  obtain ⟨h1, h2, h3, h4, h5, h6, h7, h8, h9, h10, h11, h12, h13, h14⟩ := h
+  chan_step_tac
+
+theorem step_start_recv (s : State) (t : Tid)  (h : Inv s) (hp : s.pc t = .start .recv) :
+    ∀ s', step s t = some s' → Inv s' := by
+  have a_mutex1 := h.mutex1 t
+  have a_mutex2 := h.mutex2 t
+  have a_uniq := h.uniq t
+  have a_past := h.past t
+  have a_pre := h.pre t
+  have a_pd := h.pd t
+  have a_st := h.st t
+  have a_gt := h.gt t
+  have a_wt := h.wt t
+  have a_clF := h.clF t
+  have a_cd := h.cd t
+  have a_frF := h.frF t
+  simp only [hp] at a_mutex1 a_mutex2 a_uniq a_past a_pre a_pd a_st a_gt a_wt a_clF a_cd a_frF
+  obtain ⟨h1, h2, h3, h4, h5, h6, h7, h8, h9, h10, h11, h12, h13, h14⟩ := h
+  chan_step_tac
+
+theorem step_start_full (s : State) (t : Tid)  (h : Inv s) (hp : s.pc t = .start .full) :
+    ∀ s', step s t = some s' → Inv s' := by
+  have a_mutex1 := h.mutex1 t
+  have a_mutex2 := h.mutex2 t
+  have a_uniq := h.uniq t
+  have a_past := h.past t
+  have a_pre := h.pre t
+  have a_pd := h.pd t
+  have a_st := h.st t
+  have a_gt := h.gt t
+  have a_wt := h.wt t
+  have a_clF := h.clF t
+  have a_cd := h.cd t
+  have a_frF := h.frF t
+  simp only [hp] at a_mutex1 a_mutex2 a_uniq a_past a_pre a_pd a_st a_gt a_wt a_clF a_cd a_frF
+  obtain ⟨h1, h2, h3, h4, h5, h6, h7, h8, h9, h10, h11, h12, h13, h14⟩ := h
+  chan_step_tac
+
+theorem step_start (s : State) (t : Tid) (op : _) (h : Inv s) (hp : s.pc t = .start op) :
+    ∀ s', step s t = some s' → Inv s' := by
+  cases op with
+  | close => exact step_start_close s t h hp
+  | make n => exact step_start_make s t n h hp
+  | get => exact step_start_get s t h hp
+  | send => exact step_start_send s t h hp
+  | recv => exact step_start_recv s t h hp
+  | full => exact step_start_full s t h hp
 
 theorem step_dLock (s : State) (t : Tid) (op : _) (h : Inv s) (hp : s.pc t = .dLock op) :
     ∀ s', step s t = some s' → Inv s' := by
@@ -127,8 +226,7 @@ theorem step_dRead (s : State) (t : Tid) (op : _) (h : Inv s) (hp : s.pc t = .dR
   obtain ⟨h1, h2, h3, h4, h5, h6, h7, h8, h9, h10, h11, h12, h13, h14⟩ := h
   chan_step_tac
 
-set_option maxHeartbeats 2000000 in
-theorem step_dF (s : State) (t : Tid) (op : _) (h : Inv s) (hp : s.pc t = .dF op) :
+theorem step_dF_close (s : State) (t : Tid)  (h : Inv s) (hp : s.pc t = .dF .close) :
     ∀ s', step s t = some s' → Inv s' := by
   have a_mutex1 := h.mutex1 t
   have a_mutex2 := h.mutex2 t
@@ -144,7 +242,107 @@ theorem step_dF (s : State) (t : Tid) (op : _) (h : Inv s) (hp : s.pc t = .dF op
   have a_frF := h.frF t
   simp only [hp] at a_mutex1 a_mutex2 a_uniq a_past a_pre a_pd a_st a_gt a_wt a_clF a_cd a_frF
   obtain ⟨h1, h2, h3, h4, h5, h6, h7, h8, h9, h10, h11, h12, h13, h14⟩ := h
-  cases op <;> chan_step_tac
+  chan_step_tac
+
+theorem step_dF_make (s : State) (t : Tid) (n : Nat) (h : Inv s) (hp : s.pc t = .dF (.make n)) :
+    ∀ s', step s t = some s' → Inv s' := by
+  have a_mutex1 := h.mutex1 t
+  have a_mutex2 := h.mutex2 t
+  have a_uniq := h.uniq t
+  have a_past := h.past t
+  have a_pre := h.pre t
+  have a_pd := h.pd t
+  have a_st := h.st t
+  have a_gt := h.gt t
+  have a_wt := h.wt t
+  have a_clF := h.clF t
+  have a_cd := h.cd t
+  have a_frF := h.frF t
+  simp only [hp] at a_mutex1 a_mutex2 a_uniq a_past a_pre a_pd a_st a_gt a_wt a_clF a_cd a_frF
+  obtain ⟨h1, h2, h3, h4, h5, h6, h7, h8, h9, h10, h11, h12, h13, h14⟩ := h
+  chan_step_tac
+
+theorem step_dF_get (s : State) (t : Tid)  (h : Inv s) (hp : s.pc t = .dF .get) :
+    ∀ s', step s t = some s' → Inv s' := by
+  have a_mutex1 := h.mutex1 t
+  have a_mutex2 := h.mutex2 t
+  have a_uniq := h.uniq t
+  have a_past := h.past t
+  have a_pre := h.pre t
+  have a_pd := h.pd t
+  have a_st := h.st t
+  have a_gt := h.gt t
+  have a_wt := h.wt t
+  have a_clF := h.clF t
+  have a_cd := h.cd t
+  have a_frF := h.frF t
+  simp only [hp] at a_mutex1 a_mutex2 a_uniq a_past a_pre a_pd a_st a_gt a_wt a_clF a_cd a_frF
+  obtain ⟨h1, h2, h3, h4, h5, h6, h7, h8, h9, h10, h11, h12, h13, h14⟩ := h
+  chan_step_tac
+
+theorem step_dF_send (s : State) (t : Tid)  (h : Inv s) (hp : s.pc t = .dF .send) :
+    ∀ s', step s t = some s' → Inv s' := by
+  have a_mutex1 := h.mutex1 t
+  have a_mutex2 := h.mutex2 t
+  have a_uniq := h.uniq t
+  have a_past := h.past t
+  have a_pre := h.pre t
+  have a_pd := h.pd t
+  have a_st := h.st t
+  have a_gt := h.gt t
+  have a_wt := h.wt t
+  have a_clF := h.clF t
+  have a_cd := h.cd t
+  have a_frF := h.frF t
+  simp only [hp] at a_mutex1 a_mutex2 a_uniq a_past a_pre a_pd a_st a_gt a_wt a_clF a_cd a_frF
+  obtain ⟨h1, h2, h3, h4, h5, h6, h7, h8, h9, h10, h11, h12, h13, h14⟩ := h
+  chan_step_tac
+
+theorem step_dF_recv (s : State) (t : Tid)  (h : Inv s) (hp : s.pc t = .dF .recv) :
+    ∀ s', step s t = some s' → Inv s' := by
+  have a_mutex1 := h.mutex1 t
+  have a_mutex2 := h.mutex2 t
+  have a_uniq := h.uniq t
+  have a_past := h.past t
+  have a_pre := h.pre t
+  have a_pd := h.pd t
+  have a_st := h.st t
+  have a_gt := h.gt t
+  have a_wt := h.wt t
+  have a_clF := h.clF t
+  have a_cd := h.cd t
+  have a_frF := h.frF t
+  simp only [hp] at a_mutex1 a_mutex2 a_uniq a_past a_pre a_pd a_st a_gt a_wt a_clF a_cd a_frF
+  obtain ⟨h1, h2, h3, h4, h5, h6, h7, h8, h9, h10, h11, h12, h13, h14⟩ := h
+  chan_step_tac
+
+theorem step_dF_full (s : State) (t : Tid)  (h : Inv s) (hp : s.pc t = .dF .full) :
+    ∀ s', step s t = some s' → Inv s' := by
+  have a_mutex1 := h.mutex1 t
+  have a_mutex2 := h.mutex2 t
+  have a_uniq := h.uniq t
+  have a_past := h.past t
+  have a_pre := h.pre t
+  have a_pd := h.pd t
+  have a_st := h.st t
+  have a_gt := h.gt t
+  have a_wt := h.wt t
+  have a_clF := h.clF t
+  have a_cd := h.cd t
+  have a_frF := h.frF t
+  simp only [hp] at a_mutex1 a_mutex2 a_uniq a_past a_pre a_pd a_st a_gt a_wt a_clF a_cd a_frF
+  obtain ⟨h1, h2, h3, h4, h5, h6, h7, h8, h9, h10, h11, h12, h13, h14⟩ := h
+  chan_step_tac
+
+theorem step_dF (s : State) (t : Tid) (op : _) (h : Inv s) (hp : s.pc t = .dF op) :
+    ∀ s', step s t = some s' → Inv s' := by
+  cases op with
+  | close => exact step_dF_close s t h hp
+  | make n => exact step_dF_make s t n h hp
+  | get => exact step_dF_get s t h hp
+  | send => exact step_dF_send s t h hp
+  | recv => exact step_dF_recv s t h hp
+  | full => exact step_dF_full s t h hp
 
 theorem step_dStore (s : State) (t : Tid) (op : _) (h : Inv s) (hp : s.pc t = .dStore op) :
     ∀ s', step s t = some s' → Inv s' := by
@@ -164,8 +362,7 @@ theorem step_dStore (s : State) (t : Tid) (op : _) (h : Inv s) (hp : s.pc t = .d
   obtain ⟨h1, h2, h3, h4, h5, h6, h7, h8, h9, h10, h11, h12, h13, h14⟩ := h
   chan_step_tac
 
-set_option maxHeartbeats 2000000 in
-theorem step_dUnlock (s : State) (t : Tid) (op : _) (first : _) (h : Inv s) (hp : s.pc t = .dUnlock op first) :
+theorem step_dUnlock_close (s : State) (t : Tid)  (first : _) (h : Inv s) (hp : s.pc t = .dUnlock .close first) :
     ∀ s', step s t = some s' → Inv s' := by
   have a_mutex1 := h.mutex1 t
   have a_mutex2 := h.mutex2 t
@@ -181,7 +378,107 @@ theorem step_dUnlock (s : State) (t : Tid) (op : _) (first : _) (h : Inv s) (hp 
   have a_frF := h.frF t
   simp only [hp] at a_mutex1 a_mutex2 a_uniq a_past a_pre a_pd a_st a_gt a_wt a_clF a_cd a_frF
   obtain ⟨h1, h2, h3, h4, h5, h6, h7, h8, h9, h10, h11, h12, h13, h14⟩ := h
-  cases op <;> chan_step_tac
+  chan_step_tac
+
+theorem step_dUnlock_make (s : State) (t : Tid) (n : Nat) (first : _) (h : Inv s) (hp : s.pc t = .dUnlock (.make n) first) :
+    ∀ s', step s t = some s' → Inv s' := by
+  have a_mutex1 := h.mutex1 t
+  have a_mutex2 := h.mutex2 t
+  have a_uniq := h.uniq t
+  have a_past := h.past t
+  have a_pre := h.pre t
+  have a_pd := h.pd t
+  have a_st := h.st t
+  have a_gt := h.gt t
+  have a_wt := h.wt t
+  have a_clF := h.clF t
+  have a_cd := h.cd t
+  have a_frF := h.frF t
+  simp only [hp] at a_mutex1 a_mutex2 a_uniq a_past a_pre a_pd a_st a_gt a_wt a_clF a_cd a_frF
+  obtain ⟨h1, h2, h3, h4, h5, h6, h7, h8, h9, h10, h11, h12, h13, h14⟩ := h
+  chan_step_tac
+
+theorem step_dUnlock_get (s : State) (t : Tid)  (first : _) (h : Inv s) (hp : s.pc t = .dUnlock .get first) :
+    ∀ s', step s t = some s' → Inv s' := by
+  have a_mutex1 := h.mutex1 t
+  have a_mutex2 := h.mutex2 t
+  have a_uniq := h.uniq t
+  have a_past := h.past t
+  have a_pre := h.pre t
+  have a_pd := h.pd t
+  have a_st := h.st t
+  have a_gt := h.gt t
+  have a_wt := h.wt t
+  have a_clF := h.clF t
+  have a_cd := h.cd t
+  have a_frF := h.frF t
+  simp only [hp] at a_mutex1 a_mutex2 a_uniq a_past a_pre a_pd a_st a_gt a_wt a_clF a_cd a_frF
+  obtain ⟨h1, h2, h3, h4, h5, h6, h7, h8, h9, h10, h11, h12, h13, h14⟩ := h
+  chan_step_tac
+
+theorem step_dUnlock_send (s : State) (t : Tid)  (first : _) (h : Inv s) (hp : s.pc t = .dUnlock .send first) :
+    ∀ s', step s t = some s' → Inv s' := by
+  have a_mutex1 := h.mutex1 t
+  have a_mutex2 := h.mutex2 t
+  have a_uniq := h.uniq t
+  have a_past := h.past t
+  have a_pre := h.pre t
+  have a_pd := h.pd t
+  have a_st := h.st t
+  have a_gt := h.gt t
+  have a_wt := h.wt t
+  have a_clF := h.clF t
+  have a_cd := h.cd t
+  have a_frF := h.frF t
+  simp only [hp] at a_mutex1 a_mutex2 a_uniq a_past a_pre a_pd a_st a_gt a_wt a_clF a_cd a_frF
+  obtain ⟨h1, h2, h3, h4, h5, h6, h7, h8, h9, h10, h11, h12, h13, h14⟩ := h
+  chan_step_tac
+
+theorem step_dUnlock_recv (s : State) (t : Tid)  (first : _) (h : Inv s) (hp : s.pc t = .dUnlock .recv first) :
+    ∀ s', step s t = some s' → Inv s' := by
+  have a_mutex1 := h.mutex1 t
+  have a_mutex2 := h.mutex2 t
+  have a_uniq := h.uniq t
+  have a_past := h.past t
+  have a_pre := h.pre t
+  have a_pd := h.pd t
+  have a_st := h.st t
+  have a_gt := h.gt t
+  have a_wt := h.wt t
+  have a_clF := h.clF t
+  have a_cd := h.cd t
+  have a_frF := h.frF t
+  simp only [hp] at a_mutex1 a_mutex2 a_uniq a_past a_pre a_pd a_st a_gt a_wt a_clF a_cd a_frF
+  obtain ⟨h1, h2, h3, h4, h5, h6, h7, h8, h9, h10, h11, h12, h13, h14⟩ := h
+  chan_step_tac
+
+theorem step_dUnlock_full (s : State) (t : Tid)  (first : _) (h : Inv s) (hp : s.pc t = .dUnlock .full first) :
+    ∀ s', step s t = some s' → Inv s' := by
+  have a_mutex1 := h.mutex1 t
+  have a_mutex2 := h.mutex2 t
+  have a_uniq := h.uniq t
+  have a_past := h.past t
+  have a_pre := h.pre t
+  have a_pd := h.pd t
+  have a_st := h.st t
+  have a_gt := h.gt t
+  have a_wt := h.wt t
+  have a_clF := h.clF t
+  have a_cd := h.cd t
+  have a_frF := h.frF t
+  simp only [hp] at a_mutex1 a_mutex2 a_uniq a_past a_pre a_pd a_st a_gt a_wt a_clF a_cd a_frF
+  obtain ⟨h1, h2, h3, h4, h5, h6, h7, h8, h9, h10, h11, h12, h13, h14⟩ := h
+  chan_step_tac
+
+theorem step_dUnlock (s : State) (t : Tid) (op : _) (first : _) (h : Inv s) (hp : s.pc t = .dUnlock op first) :
+    ∀ s', step s t = some s' → Inv s' := by
+  cases op with
+  | close => exact step_dUnlock_close s t first h hp
+  | make n => exact step_dUnlock_make s t n first h hp
+  | get => exact step_dUnlock_get s t first h hp
+  | send => exact step_dUnlock_send s t first h hp
+  | recv => exact step_dUnlock_recv s t first h hp
+  | full => exact step_dUnlock_full s t first h hp
 
 theorem step_cClose (s : State) (t : Tid)  (h : Inv s) (hp : s.pc t = .cClose ) :
     ∀ s', step s t = some s' → Inv s' := by
